@@ -83,6 +83,85 @@ def transfer_mono(rep, prog, rule):
             rep.unk(rule, "table-entry", st[3], "entry %s: monotonicity %s" % (fmt(e)[:160], m))
 
 
+PAIRS = [("color::mappers::gamma_into_linear", "color::mappers::linear_into_gamma"),
+         ("color::mappers::srgb_to_linear", "color::mappers::linear_to_srgb")]
+LSB16 = 1.0 / 65535.0
+
+
+def transfer_shape(rep, prog, rule):
+    rep.rule(rule, "each built-in transfer function maps 0 to 0 and 1 to 1, its pieces agree at "
+             "every breakpoint (the documented sRGB / gamma curves are continuous to 1e-7, so a "
+             "jump of more than two 16-bit steps between the limit of one piece and the value "
+             "of the next moves table entries next to the breakpoint), and the backward function "
+             "of a mapper undoes the forward one at the breakpoints (interval evaluation of the "
+             "pieces at constant points; no table is built)")
+    for pair in PAIRS:
+        fs = [prog.fn_by_name(n) for n in pair]
+        res = {}
+        for f in fs:
+            rep.touch(f)
+            key = f.name.rsplit("::", 1)[-1]
+            r = res[f.id] = mono.analyse(prog, f, 0.0, 1.0)
+            pts = {pc.lo: iv for pc, m, iv in r if pc.degenerate()}
+            for x in (0.0, 1.0):
+                iv = pts.get(x)
+                if iv is None:
+                    rep.unk(rule, "%s|f(%g)" % (key, x), f.loc, "value at %g not evaluated" % x)
+                elif abs(iv[0] - x) <= 1e-6 and abs(iv[1] - x) <= 1e-6:
+                    rep.ok(rule, "%s|f(%g)" % (key, x), f.loc, "f(%g) = %g" % (x, iv[0]))
+                elif iv[0] > x + LSB16 or iv[1] < x - LSB16:
+                    rep.bad(rule, "%s|f(%g)" % (key, x), f.loc, "%s(%g) lies in [%g, %g]: the "
+                            "end point of the range is not preserved" % (key, x, iv[0], iv[1]))
+                else:
+                    rep.unk(rule, "%s|f(%g)" % (key, x), f.loc, "f(%g) in [%g, %g]" % (x, iv[0], iv[1]))
+            for i in range(1, len(r) - 1):
+                pc, m, iv = r[i]
+                if not pc.degenerate() or pc.lo in (0.0, 1.0):
+                    continue
+                left, right = r[i - 1], r[i + 1]
+                k = "%s|junction" % key
+                if iv is None or left[2] is None or right[2] is None or left[1] != I or right[1] != I:
+                    rep.unk(rule, k, f.loc, "pieces around %g not evaluated" % pc.lo)
+                    continue
+                jl = abs(iv[0] - left[2][1])        # limit from the left vs value
+                jr = abs(right[2][0] - iv[1])       # value vs limit from the right
+                j = max(jl, jr)
+                if j <= 1e-6:
+                    rep.ok(rule, k, f.loc, "pieces meet at %g (difference %.2g)" % (pc.lo, j))
+                elif j > 2 * LSB16:
+                    rep.bad(rule, k, f.loc, "%s jumps by %.3g at its breakpoint %g (left piece "
+                            "tends to %g, value there %g): the two pieces do not describe one "
+                            "continuous transfer curve, table entries next to the breakpoint are "
+                            "off by up to %d 16-bit steps" % (key, j, pc.lo, left[2][1], iv[0],
+                                                               int(j / LSB16)))
+                else:
+                    rep.unk(rule, k, f.loc, "jump of %.3g at %g" % (j, pc.lo))
+        # inverse pairing at the breakpoints of the forward function
+        f, g = fs
+        key = "%s|inverse" % f.name.rsplit("::", 1)[-1]
+        cuts = [pc.lo for pc, m, iv in res[f.id] if pc.degenerate() and 0.0 < pc.lo < 1.0]
+        if not cuts:
+            rep.ok(rule, key, f.loc, "single piece", nontrivial=False)
+        for b in cuts:
+            iv = [iv for pc, m, iv in res[f.id] if pc.degenerate() and pc.lo == b][0]
+            if iv is None:
+                rep.unk(rule, key, f.loc, "f(%g) not evaluated" % b)
+                continue
+            y = 0.5 * (iv[0] + iv[1])
+            back = [v for pc, m, v in mono.analyse(prog, g, y, y) if v is not None]
+            if not back:
+                rep.unk(rule, key, g.loc, "g(%g) not evaluated" % y)
+                continue
+            lo, hi = min(v[0] for v in back), max(v[1] for v in back)
+            if max(abs(lo - b), abs(hi - b)) <= 1e-5:
+                rep.ok(rule, key, f.loc, "g(f(%g)) = %g" % (b, lo))
+            elif lo > b + 2.0 / 255 / 4 or hi < b - 2.0 / 255 / 4:
+                rep.bad(rule, key, f.loc, "the backward function does not undo the forward one at "
+                        "the breakpoint: g(f(%g)) = [%g, %g]" % (b, lo, hi))
+            else:
+                rep.unk(rule, key, f.loc, "g(f(%g)) in [%g, %g]" % (b, lo, hi))
+
+
 def gaps(rep, prog, rule):
     rep.rule(rule, "map_image{,_inplace}_typed call map_with_gaps*(.., N) exactly in the arm for N "
              "components (2 and 4) and the plain map otherwise; map_with_gaps* sends every N-th "
@@ -188,5 +267,6 @@ def run(rep, tier):
     for cfg, prog in programs(cfgs):
         rep.set_cfg(cfg)
         rep.call(transfer_mono, rep, prog, "C16.mono")
+        rep.call(transfer_shape, rep, prog, "C16.shape")
         rep.call(gaps, rep, prog, "C16.gaps")
         rep.call(reject, rep, prog, "C16.reject")
